@@ -997,7 +997,16 @@ func (runInfo *runInfoStruct) runChanStmt(stmt *ast.ChanStmt) {
 		}
 		runInfo.expr = stmt.OkExpr
 		runInfo.invokeLetExpr()
-		// TODO: ok to ignore error?
+		// an error of the ok target is ignored - but never the interruption
+		if runInfo.err != nil {
+			select {
+			case <-runInfo.ctx.Done():
+				runInfo.err = ErrInterrupt
+				runInfo.rv = nilValue
+				return
+			default:
+			}
+		}
 	}
 
 	if ok {
